@@ -27,5 +27,19 @@ claim("C06", "other",
       ASSUME + " strconv.Atoi reports overflow as an error. Memory use below the constant bounds and stack depth are not decided.",
       "taint-to-sink with dominating constant bounds + ABCD-lite bounds prover on SSA + loop progress", "DESIGN.md 4 C06")
 
+
+claim("C07", "other",
+      "Static rule set making process survival independent of request contents: every goroutine root in redis/... that does client-driven work registers as its first call a defer whose own body calls recover() (a recover one call deeper is ineffective and is reported); no call site in repository packages (thorough tier: nor in the non-stdlib dependencies) reachable from a connection goroutine exits the process; accept loops do no client-controlled work, end only on Accept's own error and never leak an accepted socket. Hence any recoverable panic raised by any request, for every input, ends only the offending connection.",
+      ASSUME + " Does not decide the correctness of other clients' replies, unrecoverable runtime faults (stack exhaustion, OOM; concurrent map access is C14's rule), or application handlers that exit.",
+      "goroutine-root discovery over the VTA call graph + entry-block defer/recover check + who-may-call (exit sinks) + accept-loop path automaton", "DESIGN.md 4 C07")
+claim("C11", "other",
+      "Static rule set: end of stream inside an array is an error (nil-tested nested reads; pre-sized slices complete before success); the inventory of end-of-stream-to-success returns in the parser equals the confirmed set and the EOF-tolerant line reader is only used for prefixes that a mandatory read follows; short bulk bodies are errors on every path; the handler is called only with a value tested complete and every fully received request gets exactly one flushed reply before the next read; socket close and registry removal on every exit. Necessary conditions for 'executed only if received completely', for all cut offsets at once.",
+      ASSUME + " Requests are arrays of bulk strings (the property's quantifier).",
+      "EOF-edge inventory + who-may-call + path automata and path-sensitive exit facts on SSA", "DESIGN.md 4 C11")
+claim("C19", "other",
+      "Static pairing rules (path automata on the SSA CFG): every path of every client-driven goroutine root closes the accepted socket (Close, registered deferred Close, or hand-over to another checked root) and Conn.Close closes the embedded socket unless flagged; AddConn is followed on every path by a registered deferred RemoveConn of the same connection under the same key; accept loops hand every accepted socket to a goroutine or close it; nothing blocks after the request loop; Stop closes listeners then synchronously sweeps every registered connection; only AddConn/RemoveConn/the constructor write the registry. Decides release on every control-flow path (all ending modes at once).",
+      ASSUME + " Does not decide descriptor/goroutine counts at run time, nor a peer that never reads (no write deadline).",
+      "acquire/release pairing by path automaton over SSA CFG + who-may-write table", "DESIGN.md 4 C19")
+
 for _k in list(CLAIMS):
     NA.pop(_k, None)
